@@ -158,6 +158,9 @@ func (g *gen) c07Case(p *plan, v pathVar, idx int, qv, bv string) (*Case, error)
 			if err != nil {
 				return "", err
 			}
+			if !canonicalFor(v.fds, t) {
+				continue
+			}
 			a, e1 := onlyField(p.in, v.fds, t)
 			b, e2 := onlyField(p.in, v.fds, P)
 			if e1 == nil && e2 == nil && !proto.Equal(a, b) {
@@ -249,7 +252,7 @@ const ruleC07 = "every rule of the C03 catalogue with at least one path variable
 // RunC07 is the path-bound-fields-are-authoritative check.
 func RunC07(r *mon.Run) {
 	r.Rule = ruleC07
-	r.Floor = 60
+	r.Floor = 30
 	r.Assume("the capture's typed value comes from protojson (textref); competing values are canonical texts of other values of the same field")
 	g := &gen{r: r, rng: r.Rand("c07")}
 	dyn, real := requestRules()
@@ -302,5 +305,3 @@ func RunC07(r *mon.Run) {
 		}
 	}
 }
-
-var _ = mon.Home
